@@ -1417,6 +1417,25 @@ def compare_summaries(facts, got, ref, enum_subjects):
         return True, ''
     th = guardsem.Theory(facts, enum_subjects)
     res = guardsem.compare(sorted(gs), sorted(rs), th)
+    # a loop over a collection that the other side never mentions (an iterator adaptor, a literal list of cases, a zip ..) may be the same loop spelled
+    # differently: such one-sided effects are not refutations
+    def colls(lines):
+        out = set()
+        for l in lines:
+            for fr in (l.split(' : ', 1)[0].split(' | ') if ' : ' in l else []):
+                m = re.match(r'^(?:each|for) .*? in (.*)$', fr)
+                if m:
+                    out.add(re.sub(r'^enumerate ', '', m.group(1)).strip())
+        return out
+    cg, cr = colls(gs), colls(rs)
+    fixed = []
+    for (fr, eff), v, d in res:
+        if v is False:
+            mine = set(re.sub(r'^enumerate ', '', m_.group(1)).strip() for m_ in (re.match(r'^(?:each|for) .*? in (.*)$', f_) for f_ in fr) if m_)
+            if mine and (not mine <= cr or not mine <= cg):
+                v, d = None, 'the loop over `%s` has no counterpart with the same collection on the other side; whether it is the same iteration spelled differently is not decided' % sorted(mine - (cr & cg))[0]
+        fixed.append(((fr, eff), v, d))
+    res = fixed
     bad = [r for r in res if r[1] is False]
     und = [r for r in res if r[1] is None]
     missing, extra = sorted(rs - gs), sorted(gs - rs)
